@@ -789,9 +789,18 @@ impl<'tcx> Dumper<'tcx> {
         let mut traits: Vec<(String, J)> = Vec::new();
         let mut impls: Vec<J> = Vec::new();
         let mut statics: Vec<J> = Vec::new();
+        let mut mods: Vec<J> = Vec::new();
         for ldid in tcx.hir_crate_items(()).definitions() {
             let did = ldid.to_def_id();
             match tcx.def_kind(did) {
+                DefKind::Mod => {
+                    // modules with their visibility: a private nested module is an implementation detail of its parent
+                    // (items moved into `header/protected.rs` and re-exported keep their public path)
+                    mods.push(J::obj(vec![
+                        ("path", s(path_of(tcx, did))),
+                        ("pub", J::Bool(tcx.visibility(did).is_public())),
+                    ]));
+                }
                 DefKind::Static { .. } => {
                     statics.push(J::obj(vec![
                         ("path", s(path_of(tcx, did))),
@@ -930,6 +939,7 @@ impl<'tcx> Dumper<'tcx> {
             ("impls", J::Arr(impls)),
             ("instances", J::Obj(instances)),
             ("statics", J::Arr(statics)),
+            ("mods", J::Arr(mods)),
             (
                 "enums",
                 J::Obj(
